@@ -87,6 +87,7 @@ class Engine:
         self.spec_funcs = {}
         self.auto_inline = False
         self.compress_info = {}
+        self.inv_funcs = {}
         self.inlined = set()
         self.used_contracts = set()
         self.spec_mode = False       # evaluating contract clauses: no obligations, no path splitting on and/or
@@ -110,9 +111,8 @@ class Engine:
         if self.spec_mode:
             return
         if isinstance(goal, bool):
-            if goal:
-                return
-            goal = z3.BoolVal(False)
+            # a goal that constant-folds to True is still recorded (so that obligation counts do not depend on folding)
+            goal = z3.BoolVal(goal)
         oid = '%s#%s:%s%s' % (self.qual, kind, label, self.where())
         ob = Obligation(oid, kind, label, list(st.pc), goal, props or self.default_props,
                         getattr(self.cur_stmt, 'lineno', None), note)
@@ -193,6 +193,8 @@ class Engine:
             return FnV('lib', self.mod.imports[name])
         if name in ('ValueError', 'TypeError', 'IndexError', 'KeyError', 'ZeroDivisionError', 'Exception',
                     'NotImplementedError', 'IOError'):
+            return FnV('exc', name)
+        if name.endswith('Exception') or name.endswith('Error'):
             return FnV('exc', name)
         if name in BUILTINS:
             return FnV('builtin', name)
